@@ -208,6 +208,14 @@ func VH_C18_writetext_advances_Q() {
 			glyphs[i].XAdvance = laid[i]
 		}
 	}
+	// a glyph that the shaper displaced from the pen position (a mark positioned over its base):
+	// the second glyph of a horizontal run gets an x offset of 100 units (finding D96: the pdf
+	// writer does not look at glyph offsets of horizontal text)
+	xoff := make([]int32, n+1)
+	if !vertical && n >= 2 && vChoose(0, 1) == 1 {
+		xoff[1] = 100
+		glyphs[1].XOffset = 100
+	}
 	vhC18Shown = 0
 	vhC18Adj = nil
 	mode := canvas.HorizontalTB
@@ -216,6 +224,7 @@ func VH_C18_writetext_advances_Q() {
 	}
 	w.WriteText(mode, glyphs)
 	vAssertI("C18.advances.all_glyphs_shown", vhC18Shown == n)
+	vKnown("D96", xoff[1] != 0)
 	good := true
 	for j := 0; j < n; j++ {
 		own := int32(vhC18Own[j+1])
@@ -228,7 +237,7 @@ func VH_C18_writetext_advances_Q() {
 				sum += a.n
 			}
 		}
-		want := float64(laid[j]-own) * 1000.0 / float64(upem)
+		want := float64(laid[j]-own+xoff[j+1]-xoff[j]) * 1000.0 / float64(upem)
 		err := float64(sum) + want
 		good = good && -0.5-1e-9 <= err && err <= 0.5+1e-9
 	}
